@@ -32,6 +32,7 @@ class Path:
     value: ast.AST | None = None                     # returned expression / raised exception
     env: dict = field(default_factory=dict)
     node: ast.AST | None = None                      # the terminating statement (for line numbers)
+    decided: dict = field(default_factory=dict)      # tests over locals already taken: (test text, ids of the bindings read) -> outcome
 
     # ---- queries
     def tests_text(self) -> list[tuple[str, bool]]:
@@ -281,7 +282,7 @@ class Summariser:
             raise PathBound()
 
     def _fork(self, p: Path) -> Path:
-        return Path(list(p.tests), list(p.effects), p.kind, p.value, dict(p.env), p.node)
+        return Path(list(p.tests), list(p.effects), p.kind, p.value, dict(p.env), p.node, dict(p.decided))
 
     # a test with short-circuit operators: cont_true / cont_false are continuations taking the path
     def _test(self, e, p: Path, cont_true, cont_false, raw: bool = False):
@@ -301,7 +302,31 @@ class Summariser:
         if isinstance(e, ast.UnaryOp) and isinstance(e.op, ast.Not):
             self._test(e.operand, p, cont_false, cont_true, raw)
             return
+        # bool(E) as a test is the test E
+        while isinstance(e, ast.Call) and isinstance(e.func, ast.Name) and e.func.id == "bool" and len(e.args) == 1 and not e.keywords:
+            e = e.args[0]
+        # a test that only reads locals (each bound once to ONE evaluation, whatever its text) has one outcome per binding on a path
+        key = None
+        if not raw and not any(isinstance(n, (ast.Call, ast.Attribute, ast.Subscript, ast.NamedExpr, ast.Lambda)) for n in ast.walk(e)):
+            names = sorted({n.id for n in ast.walk(e) if isinstance(n, ast.Name)})
+            if names and all(n in p.env for n in names):
+                key = (u(e), tuple(id(p.env[n]) for n in names))
+                if key in p.decided:
+                    (cont_true if p.decided[key] else cont_false)(p)
+                    return
+        if key is not None:
+            ct0, cf0 = cont_true, cont_false
+
+            def cont_true(q, _k=key, _c=ct0):
+                q.decided[_k] = True
+                _c(q)
+
+            def cont_false(q, _k=key, _c=cf0):
+                q.decided[_k] = False
+                _c(q)
         e2 = e if raw else _split_walrus(e, p.env)
+        while isinstance(e2, ast.Call) and isinstance(e2.func, ast.Name) and e2.func.id == "bool" and len(e2.args) == 1 and not e2.keywords:
+            e2 = e2.args[0]
         if not raw and (isinstance(e2, ast.BoolOp) or (isinstance(e2, ast.UnaryOp) and isinstance(e2.op, ast.Not))):
             self._test(e2, p, cont_true, cont_false, True)
             return
@@ -434,6 +459,11 @@ class Summariser:
             q.effects.append(ast.copy_location(ast.Delete(targets=[_subst(t, q.env) for t in s.targets]), s))
             _freeze(q.env, s)
             nxt(q)
+            return
+        if isinstance(s, ast.For) and isinstance(s.iter, ast.Name) and s.iter.id in p.env and not s.orelse \
+                and p.decided.get((s.iter.id, (id(p.env[s.iter.id]),))) is False:
+            # the local was tested falsy on this path: iterating it runs no iteration
+            nxt(self._fork(p))
             return
         if isinstance(s, (ast.For, ast.While)):
             q = self._fork(p)
